@@ -428,6 +428,7 @@ type c01World struct {
 	sawCrossQuota, sawResize, sawUnreserve, sawParentPods, sawFallback, sawDirtyDelete, sawRootDiff bool
 	sawReserveParked, sawReserveMisrouted, sawUnreserveMisrouted                                    bool
 	sawWindowMoved, sawWindowDeleted, sawWindowChanged, sawWindowMigrated                           bool
+	sawParkedMoveReserved                                                                           bool
 	excludedMoves                                                                                   int
 }
 
@@ -573,8 +574,10 @@ var c01Fields = []c01Field{
 // situation that is a root cause of its own (family) and the symptom is one that root cause explains, every such
 // symptom gets the family's single signature, so that one defect has one signature and another defect a different one.
 func (w *c01World) sigFor(what, dir, quota string) string {
-	if w.family != nil && w.family.match(what, dir, quota) {
-		return w.family.sig
+	for f := w.family; f != nil; f = f.next {
+		if f.match(what, dir, quota) {
+			return f.sig
+		}
 	}
 	s := w.opKind + ":" + what
 	if dir != "" {
@@ -584,6 +587,7 @@ func (w *c01World) sigFor(what, dir, quota string) string {
 }
 
 type c01Family struct {
+	next  *c01Family // tried when this family does not explain the symptom
 	sig   string
 	match func(what, dir, quota string) bool
 }
@@ -591,12 +595,13 @@ type c01Family struct {
 func c01AnySymptom(string, string, string) bool { return true }
 
 const (
-	c01SigMigrateGone  = "migrateCycle:pod-left-default-quota-between-snapshot-and-migrate"
-	c01SigMigrateStale = "migrateCycle:pod-updated-between-snapshot-and-migrate"
-	c01SigMisrouted    = "default-fallback:pod-event-misses-pod-still-counted-in-default-quota"
-	c01SigStaleCache   = "migrateCycle:cached-pod-object-stale"
-	c01SigReparentOver = "quotaReparent:old-ancestors-request-undercounted:moved-quota-request-over-max"
-	c01SigDeleteOver   = "quotaDelete:ancestors-request-undercounted:deleted-quota-request-over-max"
+	c01SigParkedMoveDropped = "parked-move:reservation-dropped-by-pod-update"
+	c01SigMigrateGone       = "migrateCycle:pod-left-default-quota-between-snapshot-and-migrate"
+	c01SigMigrateStale      = "migrateCycle:pod-updated-between-snapshot-and-migrate"
+	c01SigMisrouted         = "default-fallback:pod-event-misses-pod-still-counted-in-default-quota"
+	c01SigStaleCache        = "migrateCycle:cached-pod-object-stale"
+	c01SigReparentOver      = "quotaReparent:old-ancestors-request-undercounted:moved-quota-request-over-max"
+	c01SigDeleteOver        = "quotaDelete:ancestors-request-undercounted:deleted-quota-request-over-max"
 )
 
 // overMaxFamily: the quota that leaves (re-parent or delete) had request > max; the explained symptom is an
@@ -607,7 +612,7 @@ func (w *c01World) overMaxFamily(sig, oldParent string) *c01Family {
 		anc[n] = true
 		n = w.quotas[n].Parent
 	}
-	return &c01Family{sig, func(what, dir, quota string) bool {
+	return &c01Family{sig: sig, match: func(what, dir, quota string) bool {
 		return (what == "Request" || what == "ChildRequest") && dir == "under" && anc[quota]
 	}}
 }
@@ -1246,6 +1251,7 @@ func (w *c01World) podUpdate(t *rapid.T, name string) {
 		w.sawTerminating = true
 	}
 	mis := w.misrouted(p)
+	reservedParkedMove := false
 	p.Spec, p.Obj = s, s.build()
 	target := w.route(s.Label)
 	switch {
@@ -1255,7 +1261,17 @@ func (w *c01World) podUpdate(t *rapid.T, name string) {
 		if !p.Assigned && s.Node != "" {
 			p.Assigned = true
 		}
+	case p.In == extension.DefaultQuotaName && w.route(oldSpec.Label) == target:
+		// parked move: old and new object resolve to the same, meanwhile created, quota but the pod is still counted in the
+		// default quota. The update takes it over together with what it holds there: a reservation made while it was
+		// parked stays a reservation (reserved ... nothing is lost), it is now charged to its own quota.
+		w.sawCrossQuota = true
+		if p.Assigned && s.Node == "" {
+			reservedParkedMove = true
+		}
+		p.In, p.Assigned = target, p.Assigned || s.Node != ""
 	default:
+		// a genuine move between two quotas (the label changed): the pod starts afresh in the new quota, assigned when bound
 		if p.In != "" {
 			w.sawCrossQuota = true
 		}
@@ -1266,7 +1282,13 @@ func (w *c01World) podUpdate(t *rapid.T, name string) {
 	}
 	w.begin("podUpdate")
 	if mis {
-		w.family = &c01Family{c01SigMisrouted, c01AnySymptom}
+		w.family = &c01Family{sig: c01SigMisrouted, match: c01AnySymptom}
+	}
+	if reservedParkedMove {
+		w.sawParkedMoveReserved = true
+		w.family = &c01Family{next: w.family, sig: c01SigParkedMoveDropped, match: func(what, dir, quota string) bool {
+			return what == "podcache:assigned-flag" || (strings.HasSuffix(what, "Used") && dir == "under")
+		}}
 	}
 	w.log("podUpdate(%s) %s -> %s (event routed old=%s new=%s)", kind, s, target, w.route(oldSpec.Label), target)
 	w.plugPodUpdate(oldSpec, oldObj, p)
@@ -1276,7 +1298,7 @@ func (w *c01World) podDelete(t *rapid.T, name string) {
 	p := w.pods[name]
 	w.begin("podDelete")
 	if w.misrouted(p) {
-		w.family = &c01Family{c01SigMisrouted, c01AnySymptom}
+		w.family = &c01Family{sig: c01SigMisrouted, match: c01AnySymptom}
 	}
 	w.log("podDelete %s (member of %q, event routed to %s)", name, p.In, w.route(p.Spec.Label))
 	delete(w.pods, name)
@@ -1373,7 +1395,7 @@ func (w *c01World) opMigrate(t *rapid.T) {
 	after, _ := w.defaultCacheState()
 	n := before - after
 	if stale {
-		w.family = &c01Family{c01SigStaleCache, c01AnySymptom}
+		w.family = &c01Family{sig: c01SigStaleCache, match: c01AnySymptom}
 	}
 	if n > 0 {
 		w.sawMigrate = true
@@ -1441,16 +1463,16 @@ func (w *c01World) opMigrateInterleaved(t *rapid.T) {
 		switch {
 		case mp == nil:
 			w.sawWindowDeleted = true
-			w.family = &c01Family{c01SigMigrateGone, c01AnySymptom}
+			w.family = &c01Family{sig: c01SigMigrateGone, match: c01AnySymptom}
 			w.log("migrateCycle: step for %s (deleted since the snapshot)", name)
 		case mp.In != extension.DefaultQuotaName:
 			w.sawWindowMoved = true
-			w.family = &c01Family{c01SigMigrateGone, c01AnySymptom}
+			w.family = &c01Family{sig: c01SigMigrateGone, match: c01AnySymptom}
 			w.log("migrateCycle: step for %s (moved to %q since the snapshot)", name, mp.In)
 		default:
 			if mp.Obj != pod && (mp.Spec.Label != pod.Labels[extension.LabelQuotaName] || c01PodRequestsDump(mp.Obj) != c01PodRequestsDump(pod)) {
 				w.sawWindowChanged = true
-				w.family = &c01Family{c01SigMigrateStale, c01AnySymptom}
+				w.family = &c01Family{sig: c01SigMigrateStale, match: c01AnySymptom}
 			}
 			if to := w.route(mp.Spec.Label); to != extension.DefaultQuotaName {
 				mp.In = to
@@ -1680,6 +1702,7 @@ func c01RunHistoryMode(t *rapid.T, rec *vk.Rec, mk func(scaleMin bool, sysMax, d
 	c.ClassIf(w.sawReserveParked, "reserve-while-parked-in-default")
 	c.ClassIf(w.sawReserveMisrouted, "reserve-while-parked-after-own-quota-appeared")
 	c.ClassIf(w.sawUnreserveMisrouted, "unreserve-while-parked-after-own-quota-appeared")
+	c.ClassIf(w.sawParkedMoveReserved, "pod-update-moves-reserved-parked-pod-to-own-quota")
 	c.ClassIf(w.sawWindowMoved, "migrate-step-for-pod-moved-since-snapshot")
 	c.ClassIf(w.sawWindowDeleted, "migrate-step-for-pod-deleted-since-snapshot")
 	c.ClassIf(w.sawWindowChanged, "migrate-step-for-pod-updated-since-snapshot")
